@@ -246,11 +246,11 @@ func (vf *VersionedFetcher) seekTo(c cid.Cid) error {
 	/// // CID.
 	// }
 	for ccv := vf.queuedCids.Front(); ccv != nil; ccv = ccv.Next() {
-		cc, ok := ccv.Value.(cid.Cid)
+		cc, ok := ccv.Value.(queuedCid)
 		if !ok {
-			return client.NewErrUnexpectedType[cid.Cid]("queueudCids", ccv.Value)
+			return client.NewErrUnexpectedType[queuedCid]("queueudCids", ccv.Value)
 		}
-		err := vf.merge(cc)
+		err := vf.merge(cc.cid)
 		if err != nil {
 			return NewErrFailedToMergeState(err)
 		}
@@ -298,20 +298,21 @@ func (vf *VersionedFetcher) seekNext(c cid.Cid, topParent bool) error {
 		return NewErrVFetcherFailedToWriteBlock(err)
 	}
 
-	// add the CID to the queuedCIDs list
-	if topParent {
-		vf.queuedCids.PushFront(c)
-	}
-
 	// decode the block
 	block, err := coreblock.GetFromBytes(blk.RawData())
 	if err != nil {
 		return NewErrVFetcherFailedToDecodeNode(err)
 	}
 
-	// only seekNext on parent if we have a HEAD link
-	if len(block.Heads) != 0 {
-		err := vf.seekNext(block.Heads[0].Cid, true)
+	// add the CID to the queuedCIDs list, keeping it ordered by height
+	// so that every block is merged after all of its parents
+	if topParent {
+		vf.enqueue(c, block.Delta.GetPriority())
+	}
+
+	// seekNext on every parent, a block has several when it merged concurrent branches
+	for _, head := range block.Heads {
+		err := vf.seekNext(head.Cid, true)
 		if err != nil {
 			return err
 		}
@@ -325,6 +326,23 @@ func (vf *VersionedFetcher) seekNext(c cid.Cid, topParent bool) error {
 	}
 
 	return nil
+}
+
+// queuedCid is an element of the queuedCids list.
+type queuedCid struct {
+	cid    cid.Cid
+	height uint64
+}
+
+// enqueue adds the CID to the queuedCids list, which is kept in ascending height order.
+func (vf *VersionedFetcher) enqueue(c cid.Cid, height uint64) {
+	for e := vf.queuedCids.Front(); e != nil; e = e.Next() {
+		if q, ok := e.Value.(queuedCid); ok && q.height > height {
+			vf.queuedCids.InsertBefore(queuedCid{cid: c, height: height}, e)
+			return
+		}
+	}
+	vf.queuedCids.PushBack(queuedCid{cid: c, height: height})
 }
 
 // merge in the state of the IPLD Block identified by CID c into the VersionedFetcher state.
@@ -408,8 +426,12 @@ func (vf *VersionedFetcher) merge(c cid.Cid) error {
 	}
 
 	// handle subgraphs
-	for _, l := range block.AllLinks() {
-		err = vf.merge(l.Cid)
+	//
+	// Only the field level blocks created together with this block are merged here. The parents
+	// (heads) are queued by seekNext and merged on their own, merging them again from here would
+	// apply them more than once.
+	for _, l := range block.Links {
+		err = vf.merge(l.Link.Cid)
 		if err != nil {
 			return err
 		}
